@@ -670,6 +670,7 @@ def contract_case(arg):
     """one case, run in a sandbox child (a codec may crash the interpreter): encode under a random chunking,
     decode under a random chunking / max_length pattern as SevenZipDecompressor would drive it; returns a verdict"""
     from harness import arch
+    _die_with_parent()
     name, seed, n, texture = arg["codec"], arg["seed"], arg["n"], arg["texture"]
     rng = random.Random(seed)
     data = arch.pattern_bytes(rng, n, texture)
@@ -1007,10 +1008,47 @@ class _Alarm(Exception):
     pass
 
 
+def _die_with_parent():
+    """a sandbox child that spins must not outlive a killed check"""
+    try:
+        import ctypes
+        import signal
+        ctypes.CDLL("libc.so.6", use_errno=True).prctl(1, signal.SIGKILL)   # PR_SET_PDEATHSIG
+    except Exception:  # noqa
+        pass
+
+
+class NoProgress(Exception):
+    """SevenZipDecompressor.decompress returned nothing 100000 times in a row without consuming input: the caller loops
+    (Worker.decompress, Header._read) have no progress guard and would never return (Decomp.worker_spins)"""
+
+
+def _install_spin_detector():
+    import py7zr.compressor as C
+    if getattr(C.SevenZipDecompressor.decompress, "_c01", False):
+        return
+    orig = C.SevenZipDecompressor.decompress
+
+    def decompress(self, fp, max_length=-1):
+        before = self.consumed
+        res = orig(self, fp, max_length)
+        if len(res) == 0 and self.consumed == before and max_length != 0:
+            self._c01_idle = getattr(self, "_c01_idle", 0) + 1
+            if self._c01_idle > 100000:
+                raise NoProgress("decompress() idle 100000 times: the extraction loop does not terminate")
+        else:
+            self._c01_idle = 0
+        return res
+    decompress._c01 = True
+    C.SevenZipDecompressor.decompress = decompress
+
+
 def batch_worker(specs):
     """runs in a sandbox child.  A session that spins in Python code (Worker.decompress has no progress guard) is ended by
     SIGALRM; one stuck inside a C extension is ended by the parent's timeout on the whole child"""
     import signal
+    _die_with_parent()
+    _install_spin_detector()
 
     def on_alarm(signum, frame):
         raise _Alarm()
